@@ -79,7 +79,35 @@ Definition e_encode7 (v : val) : val :=
 Definition e_hnorm (v : val) : val :=
   match hnorm (get_b v) with Some h => VL [VB h] | None => VL [] end.
 
+(* parse + _msg_generator for blocks that may hold over-long lines; the caller
+   supplies, per stored header in order, what policy SMTP's fold_binary gives:
+   () = raises, (bytes) = the folded field.
+   -> 0 headers message | 1 (outside the class) | 3 (both attempts raise) *)
+Fixpoint zip_folds (fs : list field) (folds : list val) : list (field * option bytes) :=
+  match fs, folds with
+  | f :: fs', VL [VB b] :: folds' => (f, Some b) :: zip_folds fs' folds'
+  | f :: fs', _ :: folds' => (f, None) :: zip_folds fs' folds'
+  | f :: fs', [] => (f, None) :: zip_folds fs' []
+  | [], _ => []
+  end.
+
+Definition e_parse_flatten_x (v : val) : val :=
+  match v with
+  | VL [VB data; VL folds] =>
+      let e := parse _ hparse_x [] [] data in
+      match e_headers e with
+      | None => VL [VN 1]
+      | Some fs =>
+          match msg_generator (field * option bytes) snd (fun p => Some (fold_raw (fst p))) (zip_folds fs folds) with
+          | GenOk h => VL [VN 0; VB h; VB (e_message e); VN (N.of_nat (List.length fs))]
+          | GenRaises => VL [VN 3]
+          end
+      end
+  | _ => verr
+  end.
+
 Definition entries : list entry :=
   [("c20_boundary"%string, e_boundary); ("c20_parse_oracle"%string, e_parse_oracle);
    ("c20_parse_flatten"%string, e_parse_flatten); ("c20_refix"%string, e_refix);
-   ("c20_copy"%string, e_copy); ("c20_encode7"%string, e_encode7); ("c20_hnorm"%string, e_hnorm)].
+   ("c20_copy"%string, e_copy); ("c20_encode7"%string, e_encode7); ("c20_hnorm"%string, e_hnorm);
+   ("c20_parse_flatten_x"%string, e_parse_flatten_x)].
